@@ -274,6 +274,45 @@ func truncS(b []byte) []byte {
 	return b
 }
 
+// Headers: every combination of a wide tag number and a long length on one element (identifier and length
+// octets together take up to ten octets), on a primitive and on a constructed element.
+func TestC04Headers(t *testing.T) {
+	r := h.NewRecorder("C04", "headers")
+	lens := []int{0, 1, 127, 128, 255, 256, 65535, 65536}
+	if h.Thorough() {
+		lens = append(lens, 1<<24-1, 1<<24)
+	}
+	h.Enum(t, r, func(yield func(Case) bool) {
+		for _, tag := range []uint64{30, 31, 127, 128, 16383, 16384, 1<<21 - 1, 1 << 21, 1<<28 - 1, 1 << 28, 1<<35 - 1} {
+			for _, n := range lens {
+				content := strings.Repeat("x", n)
+				for _, form := range []string{"octets", "utf8", "seq"} {
+					var c Case
+					switch form {
+					case "octets":
+						v, _ := json.Marshal([]byte(content))
+						c = Case{Type: TypeSpec{Prim: "octets"}, Params: fmt.Sprintf("tagNum:%d", tag), Val: v}
+					case "utf8":
+						v, _ := json.Marshal(content)
+						c = Case{Type: TypeSpec{Prim: "string"}, Params: fmt.Sprintf("utf8,tagNum:%d", tag), Val: v}
+					default: // a SEQUENCE whose only member carries the wide tag and the long content
+						v, _ := json.Marshal(map[string]interface{}{"F0": []byte(content)})
+						c = Case{Type: TypeSpec{Kind: "struct", Fields: []FieldSpec{{Name: "F0", Type: TypeSpec{Prim: "octets"}, Tag: fmt.Sprintf("tagNum:%d", tag)}}}, Params: "", Val: v}
+					}
+					if !yield(c) {
+						return
+					}
+				}
+			}
+		}
+	}, func(c Case) *h.Verdict {
+		v := judgeC04(c)
+		v.NonTrivial = true
+		v.Label("header-enumeration")
+		return v
+	}, true)
+}
+
 func TestC04AllTypes(t *testing.T) { h.Run(t, "C04", "alltypes", genAllTypes, judgeMany(judgeC04)) }
 
 // ------------------------------------------------------------------- C05
